@@ -237,7 +237,7 @@ def run_item(item, tier):
                 check_text(st, src, f'array literal {lit_} cast to {t}[] used as {use[:24]}')
         # every operator over operands of every kind -- including calls that return nothing -- in statement and value positions:
         # whatever the typechecker lets through, code generation must cope with
-        pool = ['nop()', 'writeln()', 'debug()', 'fi()', '"s"', '[1]', 'true', 'x', "'c'", '[]']
+        pool = ['nop()', 'writeln()', 'debug()', 'fi()', '"s"', '[1]', 'true', 'x', "'c'", '[]', '[x > 0, true, false]', "[x is byte, 'q']", '[x, 2]', '["s", "t"]']
         pre = 'empty nop() { } int fi() { return 1; }\n'
         for op in ('??', '+', '==', 'and', '<', '%'):
             for a in pool:
@@ -246,7 +246,7 @@ def run_item(item, tier):
                     for form in ('{e};', 'write({e});', 'int v = {e};', 'if ({e}) {{ }}', 'x = ({e}) is int;', 'return {e};', 'int q[{e}];'):
                         check_text(st, pre + 'empty @is_you(int x) { ' + form.format(e=e) + ' }', f'operator {op} over {a}, {b} as {form}')
         for a in pool:
-            for form in ('-{a};', 'not {a};', '+{a};', '{a} is int;', '{a} is bool;', '{a} is byte[];', '({a})[0];', '({a}).length;', 'write({a});', 'write(({a}) is bool);', 'nop2({a});',
+            for form in ('-{a};', 'not {a};', '+{a};', '{a} is int;', '{a} is bool;', '{a} is byte[];', '({a})[0];', 'write(({a})[x]);', 'if (({a})[1]) {{ }}', '({a})[0] = ({a})[1];', '({a}).length;', 'write({a});', 'write(({a}) is bool);', 'nop2({a});',
                          'int v = {a};', 'while ({a}) {{ break; }}', '!truth_is_defeat({a});', 'sleep({a});', 'x += {a};', 'return {a};'):
                 check_text(st, pre + 'empty nop2(int k) { } empty @is_you(int x) { try { ' + form.format(a=a) + ' } undo { } }', f'{form} with {a}')
                 check_text(st, pre + 'empty nop2(int k) { } empty @is_you(int x) { ' + form.format(a=a) + ' }', f'{form} with {a}')
@@ -456,8 +456,8 @@ def coverage(total, tier):
             'token_strings': f'all strings of <= {4 if tier == "thorough" else 3} tokens over {len(SMALL_ALPHABET)} tokens',
             'character_strings': f'all strings of <= 3 characters over {len(CHARS)} characters, at top level and inside a function body',
             'constant array lengths': 'global (used/unused) and local arrays of every element type with 18 constant length expressions from -32769 to 2^31 and const-variable lengths, W 2,4',
-            'operand kinds': '6 binary operators (incl. ??) over all ordered pairs of 10 operand kinds (calls returning nothing, builtins, int call, string, array literals, bool, variable, char) in 7 '
-                             'statement/value positions; 17 unary/cast/index/call forms over the same operands inside and outside a try body',
+            'operand kinds': '6 binary operators (incl. ??) over all ordered pairs of 14 operand kinds (calls returning nothing, builtins, int call, string, constant and run-time array literals of every element type, bool, variable, char) in 7 '
+                             'statement/value positions; 20 unary/cast/index/call forms over the same operands inside and outside a try body',
             'calls': '12 builtin-like names x 3 flavours x 6 argument lists in you-function, try body, defeat function and next to a user definition of the same name',
             'literals': 'integer literals of 1..39, 100, 1000, 4299..4301, 5000 digits in every base; \\u{..} with 1..20 digits; each of the 256 first code points raw '
                         'in a string, at top level and in a comment; empty/CRLF/BOM/no-newline files; word sizes {0,1,-1,2,3,8,16,64} x stack sizes {-500,-1,0,1,2,500,1e6,1e9,1e30}',
